@@ -141,8 +141,40 @@ def record_trace(rng: random.Random, big: bool):
         stream += rng.randbytes(rng.randrange(0, 8))  # garbage after the stray byte
     # segmentation
     cuts = set()
-    mode = rng.randrange(4)
-    if mode == 0:  # byte by byte for small streams, else bounded count
+    mode = rng.randrange(5)
+    if mode == 4:
+        # chunks that begin INSIDE a frame and look like one whole frame themselves (0x00, varint length,
+        # varint type, exactly that many bytes): a parser that trusts the shape of a chunk is fooled by them
+        frame_starts = set()
+        pos = 0
+        for f in frames:
+            frame_starts.add(pos)
+            pos += len(f["hdr"]) + max(f["plen"], 0)
+        cands = []
+        for p0 in range(1, len(stream) - 3):
+            if stream[p0] != 0 or p0 in frame_starts:
+                continue
+            r1 = devices.dec_varint(stream, p0 + 1)
+            if r1 is None or r1[1] - p0 > 6:
+                continue
+            r2 = devices.dec_varint(stream, r1[1])
+            if r2 is None or r2[1] + r1[0] > len(stream):
+                continue
+            cands.append((p0, r2[1] + r1[0]))
+            if len(cands) > 400:
+                break
+        rng.shuffle(cands)
+        end = 0
+        for a, b in sorted(cands[:6]):
+            if a >= end:
+                cuts |= {a, b}
+                end = b
+        cuts.discard(len(stream))
+        if not cuts:
+            mode = 1
+    if mode == 4:
+        pass
+    elif mode == 0:  # byte by byte for small streams, else bounded count
         if len(stream) < 400:
             cuts = set(range(1, len(stream)))
         else:
